@@ -130,7 +130,17 @@ def run(chk: Check) -> None:
                         r = r.replace('[0]', '[self._pos]')
                 creates.add(r)
         lf = prog.view(c.vmethods['load_instance_state'])
-        recreates = {receiver_text(x) for x in calls_in_func(lf, 'recreate_stepper')}
+
+        def through_hook(txt: str, c=c) -> str:
+            """``self._child_instruction()`` -- a per-class hook of a shared base that returns one expression -- is that expression for THIS class"""
+            import re as _re
+            from ..model import accessor_value as _av
+            m_ = _re.fullmatch(r'self\.(\w+)\(\)', txt)
+            g_ = c.lookup(m_.group(1)) if m_ else None
+            v_ = _av(g_) if g_ is not None else None
+            return norm(v_) if v_ is not None else txt
+        creates = {through_hook(t) for t in creates}
+        recreates = {through_hook(receiver_text(x)) for x in calls_in_func(lf, 'recreate_stepper')}
         chk.ob('SIB-child-selector', lf, bool(recreates) and recreates <= creates,
                f'{sname} restores its child from {sorted(recreates)}; the running stepper creates children from {sorted(creates)}: ' +
                ('same selector' if recreates <= creates else 'a restored run would continue in a different instruction'), kind='selector-agreement')
